@@ -194,6 +194,14 @@ def rule_r3(repo):
             else:
                 if [p['name'] for p in out['parameters']] != [p['name'] for p in snap['parameters']] or bool(out.get('end_of_message', False)) != bool(snap.get('end_of_message', False)):
                     rr.fail('SectionConfigurer.info_configuration:other-sections', info.where, '%s is altered in info mode' % lay['__file__'])
+            rd = lambda c: (c.get('index'), c.get('description', ''), bool(c.get('optional', False)))
+            pv = lambda q: (q.get('name'), q.get('nbits'), q.get('type'), q.get('expected', None), bool(q.get('as_property', False)))
+            other = [k for k, a_, b_ in zip(('index', 'description', 'optional'), rd(out), rd(snap)) if a_ != b_]
+            kept = [p for p in out['parameters'] if pv(p) not in [pv(q) for q in snap['parameters']]]
+            if other or kept:
+                rr.fail('SectionConfigurer.info_configuration:other-keys', info.where, '%s in info mode also changes %s%s: only the parameters from the data section on are '
+                        'dropped (and the message ends there)' % (lay['__file__'], other, ' and rewrites parameters %s' % [p.get('name') for p in kept] if kept else ''),
+                        witness={'layout': lay['__file__']})
             if cfg != snap:
                 rr.fail('SectionConfigurer.info_configuration:mutates', info.where, 'info_configuration modifies the shared configuration of %s' % lay['__file__'])
         cfg2 = copy.deepcopy(snap)
@@ -204,6 +212,23 @@ def rule_r3(repo):
                 continue
             if any(p.get('expected') is not None for p in r.value['parameters']):
                 rr.fail('SectionConfigurer.ignore_value_expectation:effect', ign.where, 'expectations survive in %s' % lay['__file__'])
+            # ... and nothing but the expectations changes: the section stays optional / last / indexed as its layout file says, every
+            # parameter keeps its name, width, type and property flag
+            # (compared as configure_section reads a configuration: index, description, optional, end_of_message with their defaults, and
+            # per parameter name / nbits / type / expected / as_property with theirs - a key that is spelled out with its default, or
+            # one that nothing reads, makes no difference)
+            def view(c, blank):
+                return {'index': c.get('index'), 'description': c.get('description', ''), 'optional': bool(c.get('optional', False)),
+                        'end_of_message': bool(c.get('end_of_message', False)),
+                        'parameters': [(q.get('name'), q.get('nbits'), q.get('type'), None if blank else q.get('expected', None), bool(q.get('as_property', False)))
+                                       for q in c.get('parameters', []) if isinstance(q, dict)]}
+            want_cfg, got_cfg = view(snap, True), view(r.value, False)
+            if got_cfg != want_cfg:
+                diff = sorted(k for k in set(got_cfg) | set(want_cfg) if got_cfg.get(k) != want_cfg.get(k))
+                rr.fail('SectionConfigurer.ignore_value_expectation:other-keys', ign.where, 'ignoring the value expectations of %s also changes %s (%s): only the expected '
+                        'values may differ - e.g. a layout that loses its "optional" marker is decoded for every message, present or not' % (
+                            lay['__file__'], diff, ', '.join('%s: %r -> %r' % (k, want_cfg.get(k, '<absent>'), got_cfg.get(k, '<absent>')) for k in diff if k != 'parameters')),
+                        witness={'layout': lay['__file__'], 'keys': diff})
             if cfg2 != snap:
                 changed = [p['name'] for p, q in zip(cfg2['parameters'], snap['parameters']) if p != q]
                 rr.fail('SectionConfigurer.ignore_value_expectation:mutates', ign.where,
